@@ -3,9 +3,9 @@ import FCA.Generated.Unique
 import Mathlib.Data.List.Nodup
 import FCA.Proofs.Defn
 /-
-C13 over the regenerated source: eleven of the fifteen `Definition` mutators (`__setitem__`, `move_*`, `add_*`, `set_*`,
-`remove_object/property`, `union_update`, `intersection_update`), translated statement by statement from the current `definitions.py`, are the
-corresponding cases of the model's `Defn.step` — about which `C13_*` are proved. (`rename_*` — a comprehension with a side effect — and `remove_empty_*` are tied by the correspondence only.)
+C13 over the regenerated source: thirteen of the fifteen `Definition` mutators (`__setitem__`, `move_*`, `add_*`, `set_*`,
+`remove_object/property`, `rename_object/property`, `union_update`, `intersection_update`), translated statement by statement from the current `definitions.py`, are the
+corresponding cases of the model's `Defn.step` — about which `C13_*` are proved. (`remove_empty_*` are tied by the correspondence only.)
 -/
 namespace FCA
 
@@ -122,6 +122,89 @@ theorem C13_generated_intersection_update (d other : Defn) (ig : Bool) :
     Generated.defn_intersection_update d.objs d.props d.pairs other ig = (d.step (.intersectionUpdate other ig)).map (·.1) := by
   simp only [Generated.defn_intersection_update, Defn.step]
   split <;> rfl
+
+/-- `rename_object` of the current source (`Unique.replace`, then the set comprehension that moves the cells of the old row by a
+side effect — `pairs.remove` inside the filter — and the in-place union) has the model's effect: same names, the same *set* of true
+cells, the same rejections — provided no true cell lies outside the listed properties (part of the invariant every definition
+keeps, `C13_inv_history`) -/
+theorem C13_generated_rename_object (d : Defn) (old new : Name) (hp : ∀ q ∈ d.pairs, q.2 ∈ d.props) :
+    match Generated.defn_rename_object d.objs d.props d.pairs old new, d.step (.renameObject old new) with
+    | .ok g, .ok (m, _) => g.objs = m.objs ∧ g.props = m.props ∧ ∀ q, q ∈ g.pairs ↔ q ∈ m.pairs
+    | .error e, .error e' => e = e'
+    | _, _ => False := by
+  simp only [Generated.defn_rename_object, Defn.step]
+  cases uReplace d.objs old new with
+  | error e => simp [bind, Except.bind]
+  | ok objs' =>
+    simp only [bind, Except.bind, true_and]
+    have hm : ∀ p, (d.props.filter fun p => d.pairs.contains (old, p)).contains p = true ↔ p ∈ d.props ∧ (old, p) ∈ d.pairs := by
+      intro p; simp [List.contains_iff_mem, List.mem_filter]
+    rintro ⟨o, p⟩
+    simp only [mem_foldl_pAdd, pDifference, List.mem_filter, List.mem_map, Prod.mk.injEq, Prod.exists, C13_contains_row,
+      Bool.not_eq_true']
+    constructor
+    · rintro (⟨hq, hno⟩ | ⟨p', hp', rfl, rfl⟩)
+      · refine ⟨o, p, hq, ?_⟩
+        have : o ≠ old := by
+          rintro rfl
+          have h1 : (d.props.filter fun p => d.pairs.contains (o, p)).contains p = true := (hm p).mpr ⟨hp _ hq, hq⟩
+          simp [h1] at hno
+          exact hno (hp _ hq) hq
+        simp [this]
+      · have := (hm p').mp (by simpa [List.contains_iff_mem] using hp')
+        exact ⟨old, p', this.2, by simp⟩
+    · rintro ⟨o0, p0, hq0, heq⟩
+      by_cases h0 : o0 = old
+      · subst h0
+        simp only [beq_self_eq_true, if_true, Prod.mk.injEq] at heq
+        obtain ⟨rfl, rfl⟩ := heq
+        refine Or.inr ⟨p0, ?_, rfl, rfl⟩
+        have := (hm p0).mpr ⟨hp _ hq0, hq0⟩
+        simpa [List.contains_iff_mem] using this
+      · have : (o0 == old) = false := by simpa using h0
+        simp only [this, Bool.false_eq_true, if_false, Prod.mk.injEq] at heq
+        obtain ⟨rfl, rfl⟩ := heq
+        exact Or.inl ⟨hq0, by simp [this]⟩
+
+/-- likewise `rename_property` -/
+theorem C13_generated_rename_property (d : Defn) (old new : Name) (hp : ∀ q ∈ d.pairs, q.1 ∈ d.objs) :
+    match Generated.defn_rename_property d.objs d.props d.pairs old new, d.step (.renameProperty old new) with
+    | .ok g, .ok (m, _) => g.objs = m.objs ∧ g.props = m.props ∧ ∀ q, q ∈ g.pairs ↔ q ∈ m.pairs
+    | .error e, .error e' => e = e'
+    | _, _ => False := by
+  simp only [Generated.defn_rename_property, Defn.step]
+  cases uReplace d.props old new with
+  | error e => simp [bind, Except.bind]
+  | ok props' =>
+    simp only [bind, Except.bind, true_and]
+    have hm : ∀ o, (d.objs.filter fun o => d.pairs.contains (o, old)).contains o = true ↔ o ∈ d.objs ∧ (o, old) ∈ d.pairs := by
+      intro o; simp [List.contains_iff_mem, List.mem_filter]
+    rintro ⟨o, p⟩
+    simp only [mem_foldl_pAdd, pDifference, List.mem_filter, List.mem_map, Prod.mk.injEq, Prod.exists, C13_contains_col,
+      Bool.not_eq_true']
+    constructor
+    · rintro (⟨hq, hno⟩ | ⟨o', ho', rfl, rfl⟩)
+      · refine ⟨o, p, hq, ?_⟩
+        have : p ≠ old := by
+          rintro rfl
+          have h1 : (d.objs.filter fun o => d.pairs.contains (o, p)).contains o = true := (hm o).mpr ⟨hp _ hq, hq⟩
+          simp [h1] at hno
+          exact hno (hp _ hq) hq
+        simp [this]
+      · have := (hm o').mp (by simpa [List.contains_iff_mem] using ho')
+        exact ⟨o', old, this.2, by simp⟩
+    · rintro ⟨o0, p0, hq0, heq⟩
+      by_cases h0 : p0 = old
+      · subst h0
+        simp only [beq_self_eq_true, if_true, Prod.mk.injEq] at heq
+        obtain ⟨rfl, rfl⟩ := heq
+        refine Or.inr ⟨o0, ?_, rfl, rfl⟩
+        have := (hm o0).mpr ⟨hp _ hq0, hq0⟩
+        simpa [List.contains_iff_mem] using this
+      · have : (p0 == old) = false := by simpa using h0
+        simp only [this, Bool.false_eq_true, if_false, Prod.mk.injEq] at heq
+        obtain ⟨rfl, rfl⟩ := heq
+        exact Or.inl ⟨hq0, by simp [this]⟩
 
 /-! ### `tools.Unique` with its two fields explicit (`_seen`, `_items`), translated from the current `tools.py`
 
@@ -329,3 +412,5 @@ end FCA
 #print axioms FCA.C13_generated_unique_move
 #print axioms FCA.C13_generated_unique_replace
 #print axioms FCA.C13_generated_unique_discard
+#print axioms FCA.C13_generated_rename_object
+#print axioms FCA.C13_generated_rename_property
